@@ -157,6 +157,27 @@ func c07Case(t *core.T, long bool) {
 			t.Inconclusive("Stop did not return (C20's subject)")
 		}
 	}()
+	// in half of the cases another wallet already lives on the restoring instance and shares
+	// transactions with the wallet to be restored (one transaction paying or spending both): their
+	// records exist in the database before the rescan finds them
+	if t.R.Bool() {
+		if _, err := wd.NewWalletKeys("c07resident", 128, t.R.Range(2, 3)); err != nil {
+			t.Fatalf("resident wallet: %v", err)
+		}
+		for i := 0; i < t.R.Range(12, 30); i++ {
+			b, err := wd.Extend(t.R.Range(1, 4))
+			if err != nil {
+				t.Fatalf("extend: %v", err)
+			}
+			w.Deliver(b)
+		}
+		if !wd.Settle() {
+			t.Inconclusive("handler not idle")
+			return
+		}
+		wd.Logf("-- a resident wallet %s watched the last blocks live", wd.Keys[len(wd.Keys)-1].ID[:10])
+		t.Count("cases_with_a_resident_wallet_sharing_transactions", 1)
+	}
 	hold := &c07Hold{}
 	n.Wrap.SetHook(hold.hook)
 	defer n.Wrap.SetHook(nil)
